@@ -1,6 +1,7 @@
 """W6 `protocols` -- interactive schemes between honest parties (C16).
 
-Parts (``cfg['part']``; ``cfg['faults']`` switches the fault kinds on):
+Parts (``cfg['part']``; ``cfg['faults']`` switches the fault kinds on;
+``cfg['only']`` pins the two-party scheme, ``cfg['bip375']=false`` the BIP352 sender):
 
 - ``musig2``  *Actors*: 1-6 signers (duplicate keys allowed), an aggregator,
   the courier. *Workload*: keys in given / shuffled / ``key_sort`` order,
@@ -120,7 +121,7 @@ class _Session:
 
     def __init__(self, ctx: Ctx, scheme: Any, faults: bool) -> None:
         ch = ctx.ch
-        self.ctx, self.scheme, self.n, self.faults = ctx, scheme, scheme.n, faults
+        self.ctx, self.scheme, self.n = ctx, scheme, scheme.n
         self.sim = Sim(ctx, max_events=1500)
         self.quiesce = 100 + ch.draw(300, "quiesce") if faults else 0
         self.net = Courier(
@@ -140,7 +141,6 @@ class _Session:
         self.asked_det = False
         self.det_req: Any = None
         self.done = False
-        self.done_at = 0
         self.serial = 0  # secnonces generated so far
         self.signed_by: Counter[int] = Counter()  # secnonce serial -> successful signatures
 
@@ -199,7 +199,7 @@ class _Session:
                     self._send(i, "sign", self.req2)
         if self.req2 is not None and len(self.got2) == self.n and not self.done:
             self.scheme.finish(self.got1, self.got2, self.req2)
-            self.done, self.done_at = True, self.sim.now
+            self.done = True
             self.ctx.log("complete", self.sid, actor="agg")
 
     def _timer(self) -> None:
@@ -305,8 +305,9 @@ class _Session:
             self.ctx.fault("signer-crash", s.i, actor=s.name)
 
         def restart() -> None:
-            s.up = True
-            self.ctx.log("restart", actor=s.name)
+            if not s.up:
+                s.up = True
+                self.ctx.log("restart", actor=s.name)
 
         at = ch.draw(RT, "crash.at")
         self.sim.after(at, "crash", crash)
